@@ -149,6 +149,8 @@ def check(rep, F, tier, replay=None):
                 rep.violation("INT-range", "MintBuilder::checked_mint_sum|range|%d..%d" % (lo, hi), "MintBuilder::checked_mint_sum returns Ok for sums in %d ..= %d; the range of an Int is -2^64 ..= 2^64 - 1: an accumulated mint amount of %s is stored as an Int that the CBOR writer narrows (2^64 -> 0) instead of being refused with 'Mint amount overflow'" % (lo, hi, "2^64" if hi > (1 << 64) - 1 else "below -2^64"), {})
     from ruleutil import arith_unwrap_rule
     arith_unwrap_rule(rep, F)
+    from ruleutil import adv_own_rule
+    adv_own_rule(rep, F)
     # ORDER tables
     order_tables(rep, F)
     # ROUND-prim: a function that promises a rounding mode divides with the primitive of that name (truncating `/` differs from
